@@ -122,7 +122,7 @@ type Session struct {
 	HeldMax    int
 	// ExtInput, when set, may replace a (non-cancel) stream input by an
 	// external-location pointer batch the server has to fetch and resolve.
-	ExtInput func(b arrow.RecordBatch) arrow.RecordBatch
+	ExtInput func(op *Op, k int, b arrow.RecordBatch) arrow.RecordBatch
 	// Pipeline: how many following unary-shaped requests the client writes
 	// before it reads the response of the current one (0 = lockstep).
 	Pipeline   int
@@ -488,7 +488,7 @@ func (s *Session) runOp(op *Op) *OpResult {
 			b = s.viaShm(b)
 		}
 		if !cancel && s.ExtInput != nil {
-			b = s.ExtInput(b)
+			b = s.ExtInput(op, k, b)
 		}
 		err := iw.Write(b)
 		b.Release()
